@@ -14,28 +14,37 @@ def samekey(a, b):
 
 
 def mk(rng, quick):
-    ncomp = rng.choice([1, 1, 2])
-    scols = ["k1", "k2"][:ncomp]
-    kind = rng.choice(["inner", "left"])
-    pool = [rng.sample(KEYVALS, 4) for _ in range(ncomp)]
-    def keyt():
-        return [rng.choice(p) for p in pool]
-    trows, seen = [], []
-    for i in range(rng.choice([1, 2, 3])):
-        k = keyt()
-        if any(json.dumps(k) == json.dumps(s) for s in seen):
-            continue
-        seen.append(k)
-        r = {"loc": "L%d" % i, "n": rng.choice([5, 10, 20])}
-        for c, v in zip(scols, k): r[c] = v
-        trows.append(r)
-    where = None
-    wtxt = ""
+    njoin = rng.choice([1, 1, 1, 2])
+    names = ["meta", "dim"][:njoin]
+    alias = {"meta": "m", "dim": "d"}
+    pool = [rng.sample(KEYVALS, 4) for _ in range(2)]
+    joins, tables, sel, frm = [], [], [], ""
+    allcols = set()
+    for name in names:
+        ncomp = rng.choice([1, 1, 2])
+        scols = rng.sample(["k1", "k2"], ncomp) if njoin == 2 else ["k1", "k2"][:ncomp]
+        scols.sort()
+        allcols.update(scols)
+        kind = rng.choice(["inner", "left"])
+        def keyt(scols=scols):
+            return [rng.choice(pool[int(c[1]) - 1]) for c in scols]
+        trows = []
+        for i in range(rng.choice([1, 2, 3])):
+            r = {"loc": "%s%d" % (name[0].upper(), i), "n": rng.choice([5, 10, 20])}
+            for c, v in zip(scols, keyt()): r[c] = v
+            trows.append(r)
+        a = alias[name]
+        joins.append({"name": name, "kind": kind, "on": [[c, c] for c in scols], "tcols": [{"al": a + "loc", "c": "loc"}, {"al": a + "n", "c": "n"}], "_scols": scols, "_keyt": keyt})
+        tables.append({"name": name, "rows": trows})
+        frm += " %sJOIN %s %s ON %s" % ("LEFT " if kind == "left" else "", name, a, " AND ".join("%s = %s.%s" % (c, a, c) for c in scols))
+        sel += ["%s.loc AS %sloc" % (a, a), "%s.n AS %sn" % (a, a)]
+    where, wtxt = None, ""
     if rng.random() < 0.25:
-        where = {"c": "n", "op": rng.choice([">", ">=", "<"]), "lit": rng.choice([5, 10, 15]) * 10000}
-        wtxt = " WHERE m.n %s %d" % (where["op"], where["lit"] // 10000)
-    on = " AND ".join("%s = m.%s" % (c, c) for c in scols)
-    sql = "SELECT id, %s, m.loc AS loc, m.n AS n FROM stream %sJOIN meta m ON %s%s" % (", ".join(scols), "LEFT " if kind == "left" else "", on, wtxt)
+        j = rng.randrange(njoin)
+        where = {"j": j + 1, "c": "n", "op": rng.choice([">", ">=", "<"]), "lit": rng.choice([5, 10, 15]) * 10000}
+        wtxt = " WHERE %s.n %s %d" % (alias[names[j]], where["op"], where["lit"] // 10000)
+    scols_all = sorted(allcols)
+    sql = "SELECT id, %s, %s FROM stream%s%s" % (", ".join(scols_all), ", ".join(sel), frm, wtxt)
     ops, rid = [], 0
     mode = rng.choice(["sync", "emit"])
     for _ in range(rng.choice([4, 6, 8])):
@@ -43,21 +52,22 @@ def mk(rng, quick):
         if r < 0.6:
             rid += 1
             row = {"id": rid}
-            k = keyt()
-            for c, v in zip(scols, k):
+            for c in scols_all:
+                v = rng.choice(pool[int(c[1]) - 1])
                 if rng.random() < 0.9: row[c] = v
                 elif rng.random() < 0.5: row[c] = None
             ops.append({"op": mode, "row": row})
         elif r < 0.85:
-            k = keyt()
+            j = rng.choice(joins)
             row = {"loc": "U%d" % len(ops), "n": rng.choice([5, 10, 20])}
-            for c, v in zip(scols, k): row[c] = v
-            ops.append({"op": "upsert", "table": "meta", "row": row})
+            for c, v in zip(j["_scols"], j["_keyt"]()): row[c] = v
+            ops.append({"op": "upsert", "table": j["name"], "row": row})
         else:
-            ops.append({"op": "delete", "table": "meta", "key": keyt()})
-    meta = {"fam": "join", "kind": kind, "on": [[c, c] for c in scols], "scols": ["id"] + scols, "tcols": [{"al": "loc", "c": "loc"}, {"al": "n", "c": "n"}]}
+            j = rng.choice(joins)
+            ops.append({"op": "delete", "table": j["name"], "key": j["_keyt"]()})
+    meta = {"fam": "join", "joins": [{k: v for k, v in j.items() if not k.startswith("_")} for j in joins], "scols": ["id"] + scols_all}
     if where: meta["where"] = where
-    return {"meta": meta, "sql": sql, "tables": [{"name": "meta", "rows": trows}], "ops": ops, "rows": []}
+    return {"meta": meta, "sql": sql, "tables": tables, "ops": ops, "rows": []}
 
 
 def run(tier):
